@@ -119,11 +119,22 @@ func (p c19) Gen(r *simhook.Rand, tier string, idx int) harness.Scenario {
 			}
 		}
 		nkeys := 1 + r.Intn(30)
+		wide := r.Chance(1, 10)
+		if wide {
+			// the largest capacity a collector can have, and more distinct keys per period than it may report
+			sc.Cap = 255
+			sc.Periods = 1 + r.Intn(3)
+			nkeys = 280 + r.Intn(300)
+		}
 		for w := 0; w < 1+r.Intn(3); w++ {
 			var seq []int
-			for i := 0; i < 5+r.Intn(200); i++ {
+			n := 5 + r.Intn(200)
+			if wide {
+				n = 500 + r.Intn(600)
+			}
+			for i := 0; i < n; i++ {
 				k := r.Intn(nkeys)
-				if r.Chance(1, 2) {
+				if r.Chance(1, 2) && !wide {
 					k = r.Intn(1 + nkeys/5)
 				}
 				seq = append(seq, r.Intn(sc.Counters)*1000+k)
@@ -165,6 +176,11 @@ func (p c19) Gen(r *simhook.Rand, tier string, idx int) harness.Scenario {
 				case 4, 5, 6:
 					if busy {
 						rq = world.Request{Args: append(world.Bins("SET", name(k)), world.Bin(strings.Repeat(fmt.Sprintf("v%d.", i), 40+r.Intn(60))))}
+					}
+				case 7:
+					if !busy {
+						// a script without keys: its arguments are not keys
+						rq = world.Request{Args: world.Bins("EVAL", "return ARGV[1]", "0", fmt.Sprintf("arg%d", r.Intn(6)))}
 					}
 				case 0:
 					rq = world.Request{Args: world.Bins("HOTKEY"), Wait: true}
